@@ -78,6 +78,13 @@ def adapt(case):
     if case['source'] == 'sqlite':
         from tv.gen import sqlite as S
         case['frame'] = S.restrict_frame(case['frame'])
+        keyable = [c for c in case['frame']['cols']
+                   if c['kind'] == 'ostr' and len(set(
+                       v for v in c['cells'] if v is not None)) == len(
+                       [v for v in c['cells'] if v is not None])]
+        if keyable and case['frame']['n'] % 3 == 0:
+            # a text PRIMARY KEY (SQLite lets it hold NULLs)
+            keyable[0]['decl'] = 'text PRIMARY KEY'
         if case.get('nul') is False and len(case['frame']['cols']) >= 2:
             # a composite UNIQUE constraint over the first two columns
             # (only created when their value pairs are in fact distinct)
